@@ -289,6 +289,9 @@ var scratchDir string
 func Scratch() string {
 	scratchOnce.Do(func() {
 		base := "/dev/shm"
+		if parent := os.Getenv("VERIF_SCRATCH_BASE"); parent != "" {
+			base = parent // a worker process: inside the scratch directory of the check that started it, which removes it
+		}
 		if st, err := os.Stat(base); err != nil || !st.IsDir() {
 			base = filepath.Join(Root, ".scratch")
 			os.MkdirAll(base, 0o755)
